@@ -78,6 +78,14 @@ EXTRA_c07 := wrap_mmap.o
 LDX_c07 := $(WRAP_MMAP)
 EXTRA_c11 := wrap_mmap.o
 LDX_c11 := $(WRAP_MMAP)
+WRAP_LOOP := -Wl,--wrap=clock_gettime,--wrap=epoll_wait,--wrap=random,--wrap=srandom,--wrap=rand,--wrap=srand
+LOOP_OBJS := wrap_clock.o wrap_epoll.o wrap_random.o
+EXTRA_c08 := $(LOOP_OBJS)
+LDX_c08 := $(WRAP_LOOP)
+EXTRA_c09 := $(LOOP_OBJS)
+LDX_c09 := $(WRAP_LOOP)
+EXTRA_c10 := $(LOOP_OBJS)
+LDX_c10 := $(WRAP_LOOP)
 EXTRA_c16 := wrap_perturb.o
 LDX_c16 := -Wl,--wrap=pthread_spin_lock,--wrap=sem_post,--wrap=sem_wait
 EXTRA_c17 := wrap_random.o
